@@ -3,7 +3,9 @@ import Vuego.Model.Layout
 namespace Vuego.Driver
 open Lean Go Vuego Vuego.Layout
 
-def jScope (j : Json) : Scope := (jarr j).map (fun e => match jarr e with | [k, v] => (jstr k, Val.str (jstr v)) | _ => ([], .nil))
+/-- string pairs; a JSON null is the YAML null (`key: ~`): the key is present and holds nil -/
+def jScope (j : Json) : Scope :=
+  (jarr j).map (fun e => match jarr e with | [k, v] => (jstr k, if jisNull v then Val.nil else Val.str (jstr v)) | _ => ([], .nil))
 
 /-- files = [[name, [[k,v]…]]…] (front-matter as string pairs), config, fill, probes = keys every file prints. The engine is abstracted to
     "print the file's name, the probed keys and the content": `[name|v1|v2|…|content]` -/
